@@ -97,6 +97,13 @@ impl ParseData for FromMetaOptions {
 
         match self.base.data {
             Data::Struct(ref data) => {
+                if data.is_tuple() && data.len() > 1 {
+                    errors.push(
+                        Error::custom("Tuple structs with more than one field are not supported")
+                            .with_span(&self.base.ident),
+                    );
+                }
+
                 if let Some(from_word) = &self.from_word {
                     if data.is_unit() {
                         errors.push(Error::custom("`from_word` cannot be used on unit structs because it conflicts with the generated impl").with_span(from_word));
@@ -106,6 +113,13 @@ impl ParseData for FromMetaOptions {
                 }
             }
             Data::Enum(ref data) => {
+                for variant in data.iter().filter(|v| v.is_unsupported_tuple()) {
+                    errors.push(
+                        Error::custom("Tuple variants with more than one field are not supported")
+                            .with_span(&variant.ident),
+                    );
+                }
+
                 let word_variants: Vec<_> = data
                     .iter()
                     .filter_map(|variant| variant.word.as_ref())
